@@ -60,6 +60,9 @@ Definition nsroot_of (l : lang) : option string :=
   | _, _ => None
   end.
 
+(* local part of a table root element: after its last ':' (o-ex:rights -> rights) *)
+Definition root_local (e : string) : string := match after_last ":"%char e with Some x => x | None => e end.
+
 Definition xml_routes_ok (main : list lang) (l : lang) : bool :=
   match l_pub_text l with
   | Some s => id_is (xml_select main (Some s) None "no-such-root") l &&
@@ -74,9 +77,14 @@ Definition xml_routes_ok (main : list lang) (l : lang) : bool :=
   | None => true
   end &&
   match l_root l with
-  | Some r => same_lang (xml_select main None None r) (if str_has NAMESPACE_SEPARATOR r then find (ns0_prefixes r) main else first_by_root main r) &&
-              same_lang (xml_select main (Some "-//NO//SUCH//EN"%string) (Some "no-such-dtd"%string) r)
-                        (if str_has NAMESPACE_SEPARATOR r then find (ns0_prefixes r) main else first_by_root main r)
+  | Some r => same_lang (xml_select main None None r) (first_by_root main r) &&
+              same_lang (xml_select main (Some "-//NO//SUCH//EN"%string) (Some "no-such-dtd"%string) r) (first_by_root main r) &&
+              match first_by_root main r with Some _ => true | None => false end &&
+              (* the same local name in a namespace that opens no table: the first entry with that local root element *)
+              (let loc := root_local r in
+               same_lang (xml_select main None None ("urn:no-such-namespace" ++ String NAMESPACE_SEPARATOR loc)%string)
+                         (find (fun x => match l_root x with Some e => streq (root_local e) loc | None => false end) main) &&
+               match xml_select main None None ("urn:no-such-namespace" ++ String NAMESPACE_SEPARATOR loc)%string with Some _ => true | None => false end)
   | None => true
   end &&
   match nsroot_of l with
